@@ -108,6 +108,11 @@ func (bucket *Bucket) CloseAndDelete(ctx context.Context) (err error) {
 	bucket.mutex.Lock()
 	defer bucket.mutex.Unlock()
 	bucket.closed = true // so that a later Close() of this handle is a no-op
+	if bucket.storeDeleted.Swap(true) {
+		// The bucket has been deleted through another of its handles already. Whatever exists at its URL by now
+		// is somebody else's: a bucket created there since.
+		return nil
+	}
 	bucket._closeSqliteDB()
 	return deleteBucket(ctx, bucket)
 }
